@@ -214,6 +214,11 @@ pub fn run() {}
 fn subj(deps: &&'static str, a: i32) -> i32 { a }
 pub fn run() {}
 """),
+    ("lifetime_arg_of_concrete_type", """pub struct Ctx<'c>(pub &'c str);
+#[::entrait::entrait(pub Subj)] /*@inv*/
+fn subj<'c>(deps: &Ctx<'c>, a: i32) -> usize { deps.0.len() + a as usize }
+pub fn run() {}
+"""),
 ]
 
 
